@@ -18,6 +18,7 @@ import PqlModel.Props.C08ErrIRUnits
 import PqlModel.Props.C08ErrIRAlgebra
 import PqlModel.Props.C08ErrIRShape
 import PqlModel.Props.C08ErrIR
+import PqlModel.Props.IRHeadlinesC
 #print axioms Pql.C08.C08_split_partition
 #print axioms Pql.C08.C08_splitSemi_partition
 #print axioms Pql.C08.C08_endSplit_iff
@@ -90,3 +91,8 @@ import PqlModel.Props.C08ErrIR
 #print axioms Pql.ErrIR.nf_unwrap_irrelevant_as
 #print axioms Pql.ErrIR.nested_join_kept
 #print axioms Pql.ErrIR.wrap_inside_cx
+#print axioms Pql.IRHead.C08_accounted_ir
+#print axioms Pql.IRHead.C08_rejection_ir
+#print axioms Pql.IRHead.C08_shapes_rejected_ir
+#print axioms Pql.IRHead.C08_on_translated_code
+#print axioms Pql.IRHead.C08_on_translated_code_nonvacuous
